@@ -115,6 +115,36 @@ CHECKS = {
 }
 
 CHECKS.update({
+    "C04": (
+        "property-based differential testing against a reference evaluator of the documented nested-loop semantics (vf/c04_comp.py, never calls Hy) + metamorphic strategy pair (as written vs. one subform rewritten to (do (E 9000 None) e), which forces the generator-function strategy) over an enumerated clause-kind x forced-slot sweep and Hypothesis-sampled clause lists",
+        "lfor/sfor/dfor/gfor/for forms of 0..5 clauses (iteration with destructuring and starred targets, :if, :setv, :do, #* / #** finals, nested comprehension) in module, function, class and let scopes: result and exact effect log, gfor laziness per next(), post-state of every iteration/:setv/star/setx name and of the let binding, for-else. Clause-kind vectors <= 3 (thorough <= 4) x form kinds x forced slot enumerated, the rest sampled.",
+        "Unspecified evaluation orders are excluded by construction; one recorded finding (setx in a nested comprehension) is identified by a matcher on the case shape and bucket.",
+        "comprehensions", "2/C04"),
+    "C15": (
+        "property-based differential/metamorphic test over generated Hy packages: source import vs. import from cached bytecode in child interpreters (same process and fresh process, private PYTHONPYCACHEPREFIX), with a reference model of require for the expected run-time expansions; generated file names x a Python/Hy polyglot for the extension rule",
+        "Second import compiles nothing and really unmarshals the .pyc; outcome, effects, canonical public values, macro and reader tables with defining modules and all run-time macro probes equal between the two imports for every module of the case; a file is handled by Hy iff its extension is not a Python source suffix. 320 + 320 cases quick, 8000 + 6000 thorough.",
+        "Modules that bind one macro/reader name twice and names whose meaning the docs do not spell out are excluded (table equality only).",
+        "packages", "2/C15"),
+    "C10": (
+        "property-based generation of sloppy Hy model trees over all core macro heads (read from builtins._hy_macros at run time; per-head templates of the documented shapes + 0..3 mutations; 35% through the text route); outcome-validity oracle hy_compile -> CPython compile() -> marshal; bucketed crash triage with a zone-aware shrinker",
+        "Allowed outcomes: success of all three stages, a HyLanguageError subclass / SyntaxError from Hy, or a SyntaxError from compile(); anything else (HyCompileError, ValueError/TypeError/SystemError from compile(), marshal failure, 20 s CPU without outcome) is a violation. 16 000 (quick) / 400 000 (thorough) trees, depth <= 6.",
+        "Errors that merely wrap an internal exception inside HyMacroExpansionError satisfy the property's letter and are only counted (classes wrapped:*); compile-time evaluating heads get whitelisted terminating bodies only.",
+        "trees", "2/C10"),
+    "C16": (
+        "generated staging programs (JSON IR: eval-when-compile / eval-and-compile / do-mac nested in each other, in fn/defn/let/if, templates and unquotes) executed through compile / run / bytecode-import / hy.eval histories in child interpreters with a private bytecode cache; differential against a reference model of staging written from docs/api.rst; structure-aware shrinking",
+        "The exact [tag, value] logs of the compile phase and of the run phase, both bytecode histories (run phase only, zero compilations), source import and whole-stream hy.eval (compile then run) and the form-by-form interleaved hy.eval must equal the model's. 1200 (quick) / 30 000 (thorough) programs in batches of 60.",
+        "Compositional reading of 'once': a staging form inside an eval-and-compile body is compiled twice (api.rst: evaluated as soon as compiled, then left in the program); at most one effectful unquote per quasiquote (semantics.rst leaves the order of a sequence's children unspecified).",
+        "staging", "2/C16"),
+    "C26": (
+        "exhaustive short strings over a 40-character syntax alphabet plus Hypothesis-drawn names and bracket delimiter/content pairs; oracle = constructor success <=> hy.read_many of the corresponding text yields exactly that one model; root-cause tags from a spec model of bracket-string reading",
+        "Symbol(s) vs reading s, Keyword(s) vs reading ':'+s, String(s, brackets=d) vs reading '#['+d+'['+s+']'+d+']'. All strings of length <= 2 (thorough <= 3) as Symbol and Keyword, 42 delimiters x all contents of length <= 2, 30 000 / 1.2 million drawn cases.",
+        "One recorded finding (content starting with a line feed) is identified by the spec model's tag, which is only assigned when the real read result equals the model's prediction.",
+        "constructors", "2/C26"),
+    "C37": (
+        "generated multi-stream histories (two fresh modules, 0..2 on-disk libraries, nested and interleaved streams, reader reuse) of defreader / require :readers / uses / compile-time state, driven as hy.eval(hy.read_many ...), form by form, or nested, against a reference model of per-module and per-reader tables that never imports hy; eager reading as negative control; per-reader probes of every pool name afterwards",
+        "Every form's model and value, the position and phase of the expected SyntaxError, recorded and last values, final _hy_reader_macros keys of modules and libraries, and for each reader what every pool name reads as; 3000 (quick) / 120 000 (thorough) histories.",
+        "Trusts vf/c37_model.py; names made visible only by a star-require through the module table are outside the domain (the docs do not say what a second reader of the same module sees).",
+        "readermacros", "2/C37"),
     "C11": (
         "enumerated slot x wrapper sweep (114 base shapes x every evaluated leaf slot x 12 wrappers: #*/#** sugar and long form, unpack forms with 0/2 arguments, :k v, statement-producing operands) plus Hypothesis-drawn form trees over 56 form kinds, every evaluated leaf a fresh variable; static AST name-presence oracle plus dynamic lookup-logging execution under an all-accepting dummy namespace; in-place minimisation to a construct-path bucket",
         "A form is either rejected (Hy or Python syntax error) or every operand variable occurs as a loaded Name in the compiled module and - where its evaluation is unconditional - is looked up when the code runs. 3201 enumerated cases and 24 000 (quick) / 400 000 (thorough) drawn trees.",
@@ -262,6 +292,18 @@ def main():
              "kind_free_text": "JSON quasiquote templates and a reference expander"},
             {"name": "forms", "path": "vf/c11_forms.py", "serves_properties": ["C11"],
              "kind_free_text": "form-tree renderer with unique evaluated leaves, lookup-logging namespace"},
+            {"name": "trees", "path": "vf/c10_gen.py", "serves_properties": ["C10"],
+             "kind_free_text": "sloppy model-tree generator over all core macro heads with compile-time-safe zones"},
+            {"name": "staging", "path": "vf/c16_model.py", "serves_properties": ["C16"],
+             "kind_free_text": "staging-program IR, renderer, reference model; child-interpreter worker vf/c16worker.py"},
+            {"name": "constructors", "path": "vf/props/c26.py", "serves_properties": ["C26"],
+             "kind_free_text": "short-string enumeration and drawn names/bracket pairs"},
+            {"name": "readermacros", "path": "vf/c37_model.py", "serves_properties": ["C37"],
+             "kind_free_text": "multi-stream reader-macro histories with a hy-free reference model"},
+            {"name": "comprehensions", "path": "vf/c04_comp.py", "serves_properties": ["C04"],
+             "kind_free_text": "clause-list IR, renderer, validity checker and reference evaluator of the nested-loop semantics"},
+            {"name": "packages", "path": "vf/c15_gen.py", "serves_properties": ["C15"],
+             "kind_free_text": "generated Hy packages (macro modules, every require shape), child-interpreter worker vf/c15worker.py"},
             {"name": "literals", "path": "vf/props/c22.py", "serves_properties": ["C22", "C23", "C24"],
              "kind_free_text": "per-module structural generators of literal texts (vf/props/c22.py, c23.py, c24.py) with CPython as the reference evaluator"},
         ],
